@@ -54,6 +54,8 @@ def run(prog, res):
   ck = prog.function('premade_lib.compute_keypoints')
   _clip_polarity(prog, res, ck)
   _lockstep(prog, res, ck)
+  _order_and_bookkeeping(prog, res)
+  res.floor('W4', 1)
   n = validate.check_dispatch(prog, res, ck, 'keypoints')
   n += validate.check_dispatch(prog, res, ck, 'weight_reduction')
   res.floor('V2', 2)
@@ -267,3 +269,73 @@ def _params_forwarded(res, fn, call, names):
               'parameter %s forwarded' % n,
               'parameter %s of %s is not forwarded to compute_keypoints' % (
                   n, fn.name))
+
+
+def _order_and_bookkeeping(prog, res):
+  """W4 / K4 of C18.
+  (a) compute_keypoints removes default-valued examples BEFORE it appends the
+  clip bounds as zero-weight sentinels: the sentinels make the first / last
+  keypoint equal the clip bounds, and a default value that equals a clip
+  bound would otherwise strip the sentinel (and everything clipped onto it).
+  Decided by dominance on the CFG.
+  (b) the duplicate repair of _weighted_quantile records as used exactly the
+  index it stores (`used_idx.add(c)` and `quantiles_idx[i] = c` with the same
+  c under the same test that c is free): recording another value lets two
+  repairs pick the same neighbour and return duplicated keypoints."""
+  from ..cfg import CFG, enclosing_stmt
+  ck = prog.function('premade_lib.compute_keypoints')
+  res.analysed(ck)
+  cfg = CFG(ck.node)
+  removal = None
+  appends = []
+  for st in ast.walk(ck.node):
+    if isinstance(st, ast.Assign) and dotted(st.targets[0]) == 'values':
+      v = st.value
+      if isinstance(v, ast.Subscript) and dotted(v.value) == 'values' and \
+          'default' in (dotted(v.slice) or ''):
+        removal = st
+      if isinstance(v, ast.Call) and (prog.ext_name(ck.module, v.func) or ''
+                                      ) == 'np.append' and len(v.args) == 2 \
+          and (dotted(v.args[1]) or '').startswith('clip_'):
+        appends.append(st)
+  if removal is None or len(appends) != 2:
+    raise AnalysisError('compute_keypoints: default removal / the two clip '
+                        'sentinel appends were not found (%s, %d)' % (
+                            removal is not None, len(appends)))
+  rn = cfg.node_of(removal)
+  dom = cfg.dominators()
+  late = [a for a in appends if rn not in dom[cfg.node_of(a)]]
+  res.check(not late, 'W4', 'premade_lib.compute_keypoints|default-before-'
+            'sentinels', ck.loc(removal),
+            'default values are removed before the clip sentinels are '
+            'appended',
+            'the clip bound is appended as a sentinel (`%s`) before the '
+            'default values are removed: a default value equal to that clip '
+            'bound strips the sentinel and the first / last keypoint is no '
+            'longer the clip bound' % (norm_text(late[0])[:50] if late
+                                       else ''))
+  wq = prog.function('premade_lib._weighted_quantile')
+  res.analysed(wq)
+  adds = [c for c in ast.walk(wq.node) if isinstance(c, ast.Call) and
+          isinstance(c.func, ast.Attribute) and c.func.attr == 'add' and
+          dotted(c.func.value) == 'used_idx' and c.args]
+  stores = [st for st in ast.walk(wq.node) if isinstance(st, ast.Assign) and
+            isinstance(st.targets[0], ast.Subscript) and dotted(
+                st.targets[0].value) == 'quantiles_idx']
+  if len(adds) != 1 or len(stores) != 1:
+    raise AnalysisError('_weighted_quantile: repair bookkeeping changed '
+                        'shape (%d adds, %d stores)' % (len(adds),
+                                                       len(stores)))
+  a, s = norm_text(adds[0].args[0]), norm_text(stores[0].value)
+  gs = structural_guards(wq.node, adds[0]) or []
+  free_test = any(isinstance(c, ast.Compare) and isinstance(
+      c.ops[0], ast.NotIn) and norm_text(c.left) == a and dotted(
+          c.comparators[0]) == 'used_idx' for t, p in gs if p
+                  for c in ast.walk(t))
+  res.check(a == s and free_test, 'K2',
+            'premade_lib._weighted_quantile|used-is-stored', wq.loc(adds[0]),
+            'the index recorded as used is the index stored, and it was '
+            'tested to be free',
+            'the repair records `%s` as used but stores `%s` (tested free: '
+            '%s): a later repair can choose the same neighbour and the '
+            'keypoints contain duplicates' % (a, s, free_test))
